@@ -245,7 +245,10 @@ def lib_vec(st: Stats, e) -> list[int] | None:
         m = lib_vars(e)
         if m > 7:
             return None                                   # mentions a variable outside (d0, d1, s0)
-        vals = [e.eval(d, s) for d, s in PROJ[m]]
+        try:
+            vals = [e.eval(d, s) for d, s in PROJ[m]]
+        except Exception as ex:  # noqa: BLE001 - an eval that raises is a value that differs
+            vals = [f"eval raised {type(ex).__name__}"] * len(PROJ[m])
         st.bump("lib_eval_calls", len(vals))
         if len(_VCACHE) >= _VCACHE_MAX:
             _VCACHE.clear()
@@ -331,12 +334,12 @@ def _parse_map_attr(text: str):
     return Parser(_PCTX, text).parse_attribute()
 
 
-def _roundtrip(st: Stats, exprs):
+def _roundtrip(st: Stats, exprs, nd: int = 2, ns: int = 1):
     """print -> parse of one affine_map attribute holding `exprs`; returns (kind, parsed results | detail)."""
     from xdsl.dialects.builtin import AffineMapAttr
     from xdsl.ir.affine import AffineMap
 
-    attr = AffineMapAttr(AffineMap(2, 1, tuple(exprs)))
+    attr = AffineMapAttr(AffineMap(nd, ns, tuple(exprs)))
     text = str(attr)
     st.executions += 1
     try:
@@ -346,13 +349,13 @@ def _roundtrip(st: Stats, exprs):
     if not isinstance(back, AffineMapAttr):
         return ("not-an-affine-map", {"text": text[:300], "parsed": str(back)[:200]})
     m = back.data
-    if (m.num_dims, m.num_symbols, len(m.results)) != (2, 1, len(exprs)):
+    if (m.num_dims, m.num_symbols, len(m.results)) != (nd, ns, len(exprs)):
         return ("arity-differs", {"text": text[:300], "parsed": str(m)[:300]})
     return ("ok", m.results)
 
 
-def _pp_bad(st: Stats, e, ref):
-    kind, res = _roundtrip(st, [e])
+def _pp_bad(st: Stats, e, ref, nd: int = 2, ns: int = 1):
+    kind, res = _roundtrip(st, [e], nd, ns)
     if kind != "ok":
         return (kind, res)
     got = lib_vec(st, res[0])
@@ -465,7 +468,8 @@ UNARY_DIVMOD = tuple(o for o in UNARY_ALL if o in _DIVMOD)
 _DM8 = {("fdiv", 2, "R"), ("fdiv", 3, "R"), ("cdiv", 2, "R"), ("cdiv", 3, "R"), ("mod", 2, "R"), ("mod", 3, "R"), ("mod", 4, "R"),
         ("neg", None, None)}
 UNARY_DM8 = tuple(o for o in UNARY_ALL if o in _DM8)
-UNARY_SETS = {"all": UNARY_ALL, "divmod": UNARY_DIVMOD, "dm8": UNARY_DM8, "none": ()}
+UNARY_DM9 = tuple(o for o in UNARY_ALL if o[0] in ("fdiv", "cdiv", "mod") and o[1] in (2, 3, 4))
+UNARY_SETS = {"all": UNARY_ALL, "divmod": UNARY_DIVMOD, "dm8": UNARY_DM8, "dm9": UNARY_DM9, "none": ()}
 
 
 def binary_kinds(x: State, y: State):
@@ -517,10 +521,15 @@ def level_cfg(depth: int, a: State, cfg):
             return UNARY_ALL, _good(L[0]) + _good(L[1]), ()
         return (), _good(L[1]), ()                 # leaf (op) level-1 state; unary forms on leaves are level 1
     if depth == 3:
-        small = _small(raw_of(a))
-        un = UNARY_SETS[cfg["l3_unary"]] if (cfg["l3_prims"] == "all" or small) else ()
+        raw = raw_of(a)
+        small = _small(raw)
+        sel = cfg["l3_prims"] == "all" or (small and (cfg["l3_prims"] == "small" or bin(raw_vars(raw)).count("1") <= 2))
+        un = UNARY_SETS[cfg["l3_unary"]] if sel else ()
         lv = _good(L[0]) if (cfg["l3_leaves"] == "all" or (cfg["l3_leaves"] == "small" and small)) else ()
-        return un, lv, lv
+        rs = lv
+        if cfg["l3_divmod_partners"] and small:
+            rs = list(lv) + _G["divmod_partners"]
+        return un, rs, lv
     raise AssertionError(depth)
 
 
@@ -607,7 +616,7 @@ class Checker:
         if len(self.batch) >= 24:
             self.flush()
         self.n += 1
-        if (self.n + 131 * self.seed) % 1777 == 0:
+        if (self.n + 131 * self.seed) % (1777 if depth >= 3 else 41) == 0:
             st.sample({"tree": pretty(raw_thunk()), "built": str(e), "value_at_(1,2,3)": ref[(1 + 4) * 81 + (2 + 4) * 9 + 3 + 4]})
         v0 = ref[0]
         return any(v != v0 for v in ref)
@@ -655,6 +664,9 @@ def _shard_deep(task):
     cfg = _G["cfg"]
     index = _G["index"]
     st = Stats()
+    if os.environ.get("C26_DEBUG"):
+        import resource
+        _r0 = resource.getrusage(resource.RUSAGE_SELF)
     ck = Checker(st, cfg["sizes"], seed)
     un4 = UNARY_SETS[cfg["l4_unary"]]
     seen: set = set()
@@ -689,6 +701,11 @@ def _shard_deep(task):
                     visit(k4, x4, y4, s3, 4)
         a.vec = None
     ck.flush()
+    if os.environ.get("C26_DEBUG"):
+        _r1 = resource.getrusage(resource.RUSAGE_SELF)
+        st.bump("dbg_user_ms", int(1000 * (_r1.ru_utime - _r0.ru_utime)))
+        st.bump("dbg_sys_ms", int(1000 * (_r1.ru_stime - _r0.ru_stime)))
+        st.bump("dbg_minflt", _r1.ru_minflt - _r0.ru_minflt)
     return st, hs[3], nts[3], hs[4], nts[4]
 
 
@@ -731,39 +748,54 @@ def _points(nd: int, ns: int, mask: int):
         yield p[:nd], p[nd:]
 
 
-def _compose_compare(st: Stats, api: str, subj_raws, new_dims, new_syms, res_exprs, nd: int, ns: int, sym_of, wit) -> None:
-    """Compare library results `res_exprs` (over nd dims, ns symbols) with the reference composition:
-    subject_j( new_dims_i(point), new_syms(point) ).  new_dims / new_syms are lists of (raw, dims->, sym env fn).
-    `sym_of(kind, syms)` gives the symbol tuple seen by the replacement expressions ('inner') or, for symbols
-    of the subject that are not replaced, by the subject itself ('outer')."""
+def _mask_in(raw, nd: int, sym_map) -> int:
+    """Variables of raw tree `raw` as a mask of the result space (dims 0..nd-1, then symbols), its s_j being
+    result symbol sym_map[j]."""
+    m = raw_vars(raw)
+    return (m & 3) | ((1 << (nd + sym_map[0])) if m & 4 else 0)
+
+
+def _compose_compare(st: Stats, api: str, subj_raws, dim_repl, sym_repl, res_exprs, nd: int, ns: int,
+                     inner_map, outer_map, wit) -> bool:
+    """Library results `res_exprs` (expressions over nd dims, ns symbols) against the reference composition
+        subject_j(dims', syms')  with  dims'[i] = dim_repl[i](dims, inner syms) for i < len(dim_repl), else dims[i]
+                                       syms'    = sym_repl(dims, inner syms) if given, else the outer symbols,
+    where the replacement expressions see result symbol inner_map[j] as their s_j and the subject sees result symbol
+    outer_map[j] as its (not replaced) s_j.  Every point of [-4,4]^(nd+ns) projected on the variables that occur
+    in the library result or can influence the reference."""
     mask = 0
     for r in res_exprs:
         mask |= lib_vars(r, nd)
-    # variables the reference can depend on
-    full = (1 << (nd + ns)) - 1
-    if mask > full:
-        st.violate(f"C26|compose|{api}|result-uses-unknown-variable", f"{api} result mentions a variable outside its space", wit)
-        return
-    mask |= wit["_refmask"]
+    if mask >= (1 << (nd + ns)):
+        st.violate(f"C26|compose|{api}|result-uses-unknown-variable", f"{api} result mentions a variable outside its space",
+                   {**wit, "results": [str(r) for r in res_exprs]})
+        return False
+    for sr in subj_raws:
+        u = raw_vars(sr)
+        for i in (0, 1):
+            if u & (1 << i):
+                mask |= _mask_in(dim_repl[i], nd, inner_map) if i < len(dim_repl) else (1 << i)
+        if u & 4:
+            mask |= _mask_in(sym_repl[0], nd, inner_map) if sym_repl is not None else (1 << (nd + outer_map[0]))
     for dims, syms in _points(nd, ns, mask):
-        inner_s = sym_of("inner", syms)
-        nd_vals = [ref_eval(r, dims, inner_s) for r in new_dims]
-        if new_syms is None:
-            ns_vals = sym_of("outer", syms)
-        else:
-            ns_vals = [ref_eval(r, dims, inner_s) for r in new_syms]
+        inner_s = tuple(syms[j] for j in inner_map)
+        dvals = [ref_eval(r, dims, inner_s) for r in dim_repl] + list(dims[len(dim_repl):])
+        svals = [ref_eval(r, dims, inner_s) for r in sym_repl] if sym_repl is not None else tuple(syms[j] for j in outer_map)
         for j, (sr, le) in enumerate(zip(subj_raws, res_exprs)):
-            exp = ref_eval(sr, nd_vals, ns_vals)
-            got = le.eval(dims, syms)
+            exp = ref_eval(sr, dvals, svals)
+            try:
+                got = le.eval(dims, syms)
+            except Exception as ex:  # noqa: BLE001
+                got = f"eval raised {type(ex).__name__}"
             st.evaluations += 1
             if got != exp:
-                w = {k: v for k, v in wit.items() if not k.startswith("_")}
                 st.violate(f"C26|compose|{api}|value-differs",
                            f"{api}: composed expression {le} differs from the reference composition",
-                           {**w, "result": str(le), "result_index": j, "dims": list(dims), "symbols": list(syms),
+                           {**wit, "result": str(le), "result_index": j, "dims": list(dims), "symbols": list(syms),
                             "expected": exp, "got": got})
-                return
+                return False
     st.outcomes[f"compose:{api}:ok"] += 1
+    return True
 
 
 def _needs(raw) -> tuple[bool, bool, bool]:
@@ -772,6 +804,14 @@ def _needs(raw) -> tuple[bool, bool, bool]:
 
 
 _SOUND: dict = {}
+_BUILT: dict = {}
+
+
+def built(raw):
+    e = _BUILT.get(raw)
+    if e is None:
+        e = _BUILT[raw] = build(raw)
+    return e
 
 
 def sound(st: Stats, raw) -> bool:
@@ -788,71 +828,68 @@ def sound(st: Stats, raw) -> bool:
     return ok
 
 
-def check_expr_compose(st: Stats, subj_raw, K, Kexpr, Kvars) -> None:
-    """AffineExpr.compose(map) and AffineExpr.replace_dims_and_symbols for one subject and every replacement
-    tuple from K that differs on a variable occurring in the subject."""
+def _call(st: Stats, api: str, wit, fn):
+    """Run one composition API call; NotImplementedError = documented limitation (skipped, counted)."""
+    st.executions += 1
+    st.transitions += 1
+    try:
+        return fn()
+    except NotImplementedError:
+        st.bump("skipped_compose_not_implemented")
+    except Exception as ex:  # noqa: BLE001
+        st.violate(f"C26|compose|{api}|raises-{type(ex).__name__}", f"{api} raised {type(ex).__name__}", {**wit, "error": str(ex)[:200]})
+    return None
+
+
+def expr_compose_case(st: Stats, subj_raw, res_raws) -> None:
+    """subject.compose((d0, d1)[s0] -> res_raws): dims of the subject are replaced by the map's results, symbols stay."""
     from xdsl.ir.affine import AffineMap
 
-    if not sound(st, subj_raw):
+    if not all([sound(st, r) for r in [subj_raw, *res_raws]]):
         return
-    e = build(subj_raw)
+    m = AffineMap(2, 1, tuple(built(r) for r in res_raws))
+    wit = {"check": "compose", "api": "AffineExpr.compose", "subject": tolist(subj_raw), "pretty": pretty(subj_raw),
+           "map_results": [tolist(r) for r in res_raws], "map": str(m)}
+    r = _call(st, "AffineExpr.compose", wit, lambda: built(subj_raw).compose(m))
+    if r is not None:
+        _compose_compare(st, "AffineExpr.compose", [subj_raw], list(res_raws), None, [r], 2, 1, (0,), (0,), wit)
+
+
+def expr_replace_case(st: Stats, subj_raw, nd_raws, ns_raws) -> None:
+    """subject.replace_dims_and_symbols(new_dims, new_symbols) with full-length lists (2 dims, 1 symbol)."""
+    if not all([sound(st, r) for r in [subj_raw, *nd_raws, *ns_raws]]):
+        return
+    wit = {"check": "compose", "api": "AffineExpr.replace_dims_and_symbols", "subject": tolist(subj_raw),
+           "pretty": pretty(subj_raw), "new_dims": [tolist(r) for r in nd_raws], "new_symbols": [tolist(r) for r in ns_raws]}
+    r = _call(st, "AffineExpr.replace_dims_and_symbols", wit,
+              lambda: built(subj_raw).replace_dims_and_symbols([built(x) for x in nd_raws], [built(x) for x in ns_raws]))
+    if r is not None:
+        _compose_compare(st, "AffineExpr.replace_dims_and_symbols", [subj_raw], list(nd_raws), list(ns_raws), [r], 2, 1, (0,), (0,), wit)
+
+
+def check_expr_compose(st: Stats, subj_raw, K) -> None:
+    """AffineExpr.compose(map) and AffineExpr.replace_dims_and_symbols for one subject and every replacement
+    tuple from K that differs on a variable occurring in the subject (the others are replaced by themselves)."""
     u0, u1, us = _needs(subj_raw)
-    nK = len(K)
-    Kok = [sound(Stats(), r) for r in K]
-    r0s = range(nK) if u0 else (0,)
-    r1s = range(nK) if u1 else (1,)
+    r0s = K if u0 else K[0:1]
+    r1s = K if u1 else K[1:2]
     # --- expr.compose(map): documented for maps with at least as many results as dims used; symbols are kept
-    for nres in (1, 2):
-        if nres == 1 and u1:
-            continue
-        for i0 in r0s:
-            for i1 in (r1s if nres == 2 else (None,)):
-                idx = [i0] if nres == 1 else [i0, i1]
-                if not all(Kok[i] for i in idx):
-                    continue
-                m = AffineMap(2, 1, tuple(Kexpr[i] for i in idx))
-                wit = {"check": "compose", "api": "AffineExpr.compose", "subject": tolist(subj_raw), "pretty": pretty(subj_raw),
-                       "map_results": [tolist(K[i]) for i in idx], "map": str(m)}
-                st.executions += 1
-                st.transitions += 1
-                try:
-                    r = e.compose(m)
-                except NotImplementedError:
-                    st.bump("skipped_compose_not_implemented")
-                    continue
-                except Exception as ex:  # noqa: BLE001
-                    st.violate(f"C26|compose|AffineExpr.compose|raises-{type(ex).__name__}", f"compose raised {type(ex).__name__}",
-                               {**wit, "error": str(ex)[:200]})
-                    continue
-                refmask = (4 if us else 0)
-                for i in idx:
-                    refmask |= Kvars[i]
-                wit["_refmask"] = refmask
-                _compose_compare(st, "AffineExpr.compose", [subj_raw], [K[i] for i in idx] + ([("d", 1)] if nres == 1 else []),
-                                 None, [r], 2, 1, lambda kind, syms: syms, wit)
-    # --- expr.replace_dims_and_symbols(new_dims, new_symbols) with full-length lists
-    rss = range(nK) if us else (2,)
-    for i0 in r0s:
-        for i1 in r1s:
-            for i2 in rss:
-                if not (Kok[i0] and Kok[i1] and Kok[i2]):
-                    continue
-                wit = {"check": "compose", "api": "AffineExpr.replace_dims_and_symbols", "subject": tolist(subj_raw),
-                       "pretty": pretty(subj_raw), "new_dims": [tolist(K[i0]), tolist(K[i1])], "new_symbols": [tolist(K[i2])]}
-                st.executions += 1
-                st.transitions += 1
-                try:
-                    r = e.replace_dims_and_symbols([Kexpr[i0], Kexpr[i1]], [Kexpr[i2]])
-                except NotImplementedError:
-                    st.bump("skipped_compose_not_implemented")
-                    continue
-                except Exception as ex:  # noqa: BLE001
-                    st.violate(f"C26|compose|AffineExpr.replace_dims_and_symbols|raises-{type(ex).__name__}",
-                               f"replace_dims_and_symbols raised {type(ex).__name__}", {**wit, "error": str(ex)[:200]})
-                    continue
-                wit["_refmask"] = Kvars[i0] | Kvars[i1] | Kvars[i2]
-                _compose_compare(st, "AffineExpr.replace_dims_and_symbols", [subj_raw], [K[i0], K[i1]], [K[i2]], [r], 2, 1,
-                                 lambda kind, syms: syms, wit)
+    if not u1:
+        for k0 in r0s:
+            expr_compose_case(st, subj_raw, (k0,))
+    for k0 in r0s:
+        for k1 in r1s:
+            expr_compose_case(st, subj_raw, (k0, k1))
+    # --- expr.replace_dims_and_symbols(new_dims, new_symbols)
+    rss = K if us else K[2:3]
+    r1r = r1s
+    if u0 and u1 and us:                  # all three variables occur: thin out the 16^3 replacement tuples
+        r1r = K[::2]
+        rss = (K[2], K[10], K[14])
+    for k0 in r0s:
+        for k1 in r1r:
+            for k2 in rss:
+                expr_replace_case(st, subj_raw, (k0, k1), (k2,))
 
 
 def check_map_compose(st: Stats, subj_raws, other_raws) -> None:
@@ -863,42 +900,33 @@ def check_map_compose(st: Stats, subj_raws, other_raws) -> None:
     if not all([sound(st, r) for r in list(subj_raws) + list(other_raws)]):
         return
     nres = len(other_raws)
-    self_map = AffineMap(nres, 1, tuple(build(r) for r in subj_raws))
-    other = AffineMap(2, 1, tuple(build(r) for r in other_raws))
+    self_map = AffineMap(nres, 1, tuple(built(r) for r in subj_raws))
+    other = AffineMap(2, 1, tuple(built(r) for r in other_raws))
     wit = {"check": "compose", "api": "AffineMap.compose", "self_results": [tolist(r) for r in subj_raws],
            "other_results": [tolist(r) for r in other_raws], "self": str(self_map), "other": str(other)}
-    st.executions += 1
-    st.transitions += 1
-    try:
-        c = self_map.compose(other)
-    except NotImplementedError:
-        st.bump("skipped_compose_not_implemented")
-        return
-    except Exception as ex:  # noqa: BLE001
-        st.violate(f"C26|compose|AffineMap.compose|raises-{type(ex).__name__}", f"AffineMap.compose raised {type(ex).__name__}",
-                   {**wit, "error": str(ex)[:200]})
+    c = _call(st, "AffineMap.compose", wit, lambda: self_map.compose(other))
+    if c is None:
         return
     if (c.num_dims, c.num_symbols, len(c.results)) != (2, 2, len(subj_raws)):
         st.violate("C26|compose|AffineMap.compose|arity-differs",
                    "composed map does not have other's dims and the concatenated symbols", {**wit, "composed": str(c)})
         return
-    refmask = 0
-    for r in subj_raws:
-        if raw_vars(r) & 4:
-            refmask |= 4                       # self's s0 -> result symbol 0 -> bit 2
-    for r in other_raws:
-        m = raw_vars(r)
-        refmask |= (m & 3) | (8 if m & 4 else 0)   # other's s0 -> result symbol 1 -> bit 3
-    wit["_refmask"] = refmask
-    _compose_compare(st, "AffineMap.compose", list(subj_raws), list(other_raws), None, list(c.results), 2, 2,
-                     lambda kind, syms: (syms[1],) if kind == "inner" else (syms[0],), wit)
-    # the map's own eval must agree with its results' eval (AffineMap.eval is one of the observation points)
-    got = c.eval((1, -3), (2, -4))
-    exp = tuple(ref_eval(sr, [ref_eval(r, (1, -3), (-4,)) for r in other_raws], (2,)) for sr in subj_raws)
-    st.evaluations += 1
-    if tuple(got) != exp:
-        st.violate("C26|compose|AffineMap.eval|value-differs", "AffineMap.eval of the composed map differs from the reference",
-                   {**{k: v for k, v in wit.items() if not k.startswith("_")}, "composed": str(c), "expected": list(exp), "got": list(got)})
+    # other's s0 is result symbol 1 (inner), self's s0 stays result symbol 0 (outer)
+    if not _compose_compare(st, "AffineMap.compose", list(subj_raws), list(other_raws), None, list(c.results), 2, 2, (1,), (0,), wit):
+        return
+    # AffineMap.eval of the composed map (the other observation function) on the corners {-4, 3}^4
+    for a, b, sa, sb in itertools.product((LO, HI - 1), repeat=4):
+        st.evaluations += 1
+        exp = tuple(ref_eval(sr, [ref_eval(r, (a, b), (sb,)) for r in other_raws], (sa,)) for sr in subj_raws)
+        try:
+            got = tuple(c.eval((a, b), (sa, sb)))
+        except Exception as ex:  # noqa: BLE001
+            got = f"raised {type(ex).__name__}"
+        if got != exp:
+            st.violate("C26|compose|AffineMap.eval|value-differs", "AffineMap.eval of the composed map differs from the reference",
+                       {**wit, "composed": str(c), "dims": [a, b], "symbols": [sa, sb], "expected": list(exp),
+                        "got": list(got) if isinstance(got, tuple) else got})
+            return
 
 
 def check_map_replace(st: Stats, subj_raws, nd_raws, ns_raw) -> None:
@@ -907,26 +935,18 @@ def check_map_replace(st: Stats, subj_raws, nd_raws, ns_raw) -> None:
 
     if not all([sound(st, r) for r in list(subj_raws) + list(nd_raws) + [ns_raw]]):
         return
-    m = AffineMap(2, 1, tuple(build(r) for r in subj_raws))
+    m = AffineMap(2, 1, tuple(built(r) for r in subj_raws))
     wit = {"check": "compose", "api": "AffineMap.replace_dims_and_symbols", "self_results": [tolist(r) for r in subj_raws],
            "new_dims": [tolist(r) for r in nd_raws], "new_symbols": [tolist(ns_raw)]}
-    st.executions += 1
-    st.transitions += 1
-    try:
-        c = m.replace_dims_and_symbols([build(r) for r in nd_raws], [build(ns_raw)], 2, 1)
-    except NotImplementedError:
-        st.bump("skipped_compose_not_implemented")
-        return
-    except Exception as ex:  # noqa: BLE001
-        st.violate(f"C26|compose|AffineMap.replace_dims_and_symbols|raises-{type(ex).__name__}",
-                   f"AffineMap.replace_dims_and_symbols raised {type(ex).__name__}", {**wit, "error": str(ex)[:200]})
+    c = _call(st, "AffineMap.replace_dims_and_symbols", wit,
+              lambda: m.replace_dims_and_symbols([built(r) for r in nd_raws], [built(ns_raw)], 2, 1))
+    if c is None:
         return
     if (c.num_dims, c.num_symbols, len(c.results)) != (2, 1, len(subj_raws)):
         st.violate("C26|compose|AffineMap.replace_dims_and_symbols|arity-differs", "wrong result arity", {**wit, "result": str(c)})
         return
-    wit["_refmask"] = raw_vars(nd_raws[0]) | raw_vars(nd_raws[1]) | raw_vars(ns_raw)
     _compose_compare(st, "AffineMap.replace_dims_and_symbols", list(subj_raws), list(nd_raws), [ns_raw], list(c.results), 2, 1,
-                     lambda kind, syms: syms, wit)
+                     (0,), (0,), wit)
 
 
 def check_inverse_permutation(st: Stats, res_raws) -> None:
@@ -935,7 +955,7 @@ def check_inverse_permutation(st: Stats, res_raws) -> None:
 
     if not all([sound(st, r) for r in res_raws]):
         return
-    m = AffineMap(2, 0, tuple(build(r) for r in res_raws))
+    m = AffineMap(2, 0, tuple(built(r) for r in res_raws))
     wit = {"check": "inverse_permutation", "results": [tolist(r) for r in res_raws], "map": str(m)}
     st.executions += 1
     st.transitions += 1
@@ -973,10 +993,8 @@ def _shard_compose(task):
     st = Stats()
     K = k_set()
     if kind == "expr":
-        Kexpr = [build(r) for r in K]
-        Kvars = [raw_vars(r) for r in K]
         for raw in payload:
-            check_expr_compose(st, raw, K, Kexpr, Kvars)
+            check_expr_compose(st, raw, K)
     elif kind == "map":
         subj_list, others = payload
         for subj in subj_list:
@@ -1009,8 +1027,10 @@ def _dbg(msg: str) -> None:
 
 def tier_cfg(quick: bool):
     if quick:
-        return {"sizes": SIMPLIFY_SIZES, "l3_unary": "divmod", "l3_prims": "small", "l3_leaves": "none", "l4_unary": "none"}
-    return {"sizes": SIMPLIFY_SIZES, "l3_unary": "all", "l3_prims": "all", "l3_leaves": "small", "l4_unary": "dm8"}
+        return {"sizes": SIMPLIFY_SIZES, "l3_unary": "dm9", "l3_prims": "small2", "l3_leaves": "none", "l3_divmod_partners": False,
+                "l4_unary": "none"}
+    return {"sizes": SIMPLIFY_SIZES, "l3_unary": "all", "l3_prims": "all", "l3_leaves": "small", "l3_divmod_partners": True,
+            "l4_unary": "dm8"}
 
 
 def generate(ctx, cfg) -> dict:
@@ -1051,6 +1071,23 @@ def generate(ctx, cfg) -> dict:
             for d, i in tainted:
                 _G["levels"][d][i].bad = True
         _dbg(f"level {depth}: {len(_G['levels'][depth])} states")
+    # other map spaces for the printer / parser: no symbol list at all, and more dims / symbols than used
+    st = Stats()
+    for s in _good(_G["levels"][0] + _G["levels"][1]):
+        for nd, ns in ((2, 0), (3, 2), (2, 2)):
+            if ns == 0 and raw_vars(raw_of(s)) & 4:
+                continue
+            bad = _pp_bad(st, s.expr, vec_of(s), nd, ns)
+            if bad is not None:
+                st.violate(f"C26|print-parse|{shape(s.expr)}|{bad[0]}",
+                           f"printing and re-parsing {s.expr} in a ({nd} dims, {ns} symbols) map does not preserve its value",
+                           {"check": "print-parse", "tree": tolist(raw_of(s)), "pretty": pretty(raw_of(s)), "built": str(s.expr),
+                            "num_dims": nd, "num_symbols": ns, **bad[1]})
+            else:
+                st.outcomes[f"print-parse:space({nd},{ns}):ok"] += 1
+    ctx.merge(st)
+    # depth-1 div/mod states with divisor 2 or 3: extra right partners of level 3 (thorough)
+    _G["divmod_partners"] = [s for s in _good(_G["levels"][1]) if s.k in ("fdiv", "cdiv", "mod") and _small(raw_of(s))]
     n = len(primaries(3))
     chunk = 16
     hashes = {"h3": [], "nt3": [], "h4": [], "nt4": []}
@@ -1099,9 +1136,12 @@ def run(ctx):
     if not quick:
         msub += [(("add", a, b),) for a in K[3:] for b in K[:3]]
     others = maps1 + maps2
+    if quick:
+        others = maps1 + [(a, b) for a in K for b in K[::2]]
     for i in range(0, len(msub), 2):
         ctasks.append(("map", (msub[i:i + 2], others)))
-    rep = [((a, b), (x, y), z) for a, b in [(K[6], K[8]), (K[14], K[11]), (K[13], K[7])] for x in K for y in K for z in K[:8:2] + K[8:9]]
+    rep = [((a, b), (x, y), z) for a, b in [(K[6], K[8]), (K[14], K[11]), (K[13], K[7])] for x in K for y in (K[::2] if quick else K)
+           for z in ((K[2], K[10], K[14]) if quick else K[:8:2] + K[8:9])]
     for i in range(0, len(rep), 256):
         ctasks.append(("mapreplace", rep[i:i + 256]))
     PK = [("d", 0), ("d", 1), ("c", 0), ("add", ("d", 0), ("d", 1))]
@@ -1116,9 +1156,13 @@ def run(ctx):
         "box": f"[{LO},{HI}]^3 = {NPTS} points",
         "depth_full": 2,
         "depth3": {"int_operand_forms": [f"{k}:{v}:{side}" for k, v, side in UNARY_SETS[cfg["l3_unary"]]],
-                   "on": "all depth-2 states" if cfg["l3_prims"] == "all" else "depth-2 states whose constants / int operands are all in {-1,2,3}",
+                   "on": {"all": "all depth-2 states", "small": "depth-2 states whose constants / int operands are all in {-1,2,3}",
+                          "small2": "depth-2 states whose constants / int operands are all in {-1,2,3} and that mention at most 2 of d0,d1,s0"}[cfg["l3_prims"]],
                    "binary_with_a_leaf_on_either_side": {"none": "no", "small": "on depth-2 states whose constants are in {-1,2,3}",
-                                                         "all": "all"}[cfg["l3_leaves"]]},
+                                                         "all": "all"}[cfg["l3_leaves"]],
+                   "plus_minus_a_depth1_divmod_state_on_the_right": ("on depth-2 states whose constants are in {-1,2,3}: "
+                                                                     + ", ".join(str(s.expr) for s in _G["divmod_partners"]))
+                   if cfg["l3_divmod_partners"] else "no"},
         "depth4": {"int_operand_forms": [f"{k}:{v}:{side}" for k, v, side in UNARY_SETS[cfg["l4_unary"]]],
                    "on": "depth-3 states reached by " + ",".join(f"{k}:{v}" for k, v, _ in UNARY_DIVMOD) + " from depth-2 states with constants in {-1,2,3}"},
         "simplify_sizes": [list(x) for x in cfg["sizes"]],
@@ -1179,11 +1223,16 @@ def replay(rep) -> bool:
                 check_simplify(st, raw, s.expr, ref)
             if chk == "print-parse":
                 check_print_parse(st, [(lambda: raw, s.expr, ref)])
+                if "num_dims" in w:           # found in a map space other than (2 dims, 1 symbol)
+                    bad = _pp_bad(st, s.expr, ref, w["num_dims"], w["num_symbols"])
+                    if bad is not None:
+                        st.violate(f"C26|print-parse|{shape(s.expr)}|{bad[0]}", "print-parse in another map space", {})
     elif chk == "compose":
         api = w["api"]
-        K = k_set()
-        if api.startswith("AffineExpr."):
-            check_expr_compose(st, totuple(w["subject"]), K, [build(r) for r in K], [raw_vars(r) for r in K])
+        if api == "AffineExpr.compose":
+            expr_compose_case(st, totuple(w["subject"]), [totuple(r) for r in w["map_results"]])
+        elif api == "AffineExpr.replace_dims_and_symbols":
+            expr_replace_case(st, totuple(w["subject"]), [totuple(r) for r in w["new_dims"]], [totuple(r) for r in w["new_symbols"]])
         elif api in ("AffineMap.compose", "AffineMap.eval"):
             check_map_compose(st, [totuple(r) for r in w["self_results"]], [totuple(r) for r in w["other_results"]])
         else:
